@@ -19,7 +19,11 @@ SPEC = dict(
          "registrations, and at most one concurrency stress op (G goroutines x R rounds of Reload with file rewrites); about 3% of "
          "the cases (and two corpus cases) are watcher-driven: the real ConfigWatcher + LocalPubSub started on the file config with "
          "ConfigReloadInterval 200ms of real time, valid change -> poll until applied, rejected contents held over >= 3 failing ticks, "
-         "valid change -> poll until applied and notified exactly once; every "
+         "valid change -> poll until applied and notified exactly once; `nested A B` ops: listener 0, while notified of the reload "
+         "that applied A, writes B and triggers a second Reload; about a third of the valid config contents set every field the "
+         "config metadata marks `reload: true` (33 fields the validator accepts with type-synthesised non-default values, taken "
+         "from config.LoadConfigMetadata at run time, two variants) and after every reload all no-argument getters of "
+         "config.Config (by reflection) plus three with fixed arguments are compared with a fresh NewConfig of the same files; every "
          "reload also runs a real startup (NewConfig) on the same files for the accept/reject verdict; "
          "non-trivial = startup succeeded, at least one rewrite after it and at least two reload triggers; distinct by transcript hash",
     trusted_base=["crypto/md5 treated as injective on the generated contents (harness maps GetHashes back to content tokens)",
@@ -42,7 +46,12 @@ SPEC = dict(
         technique="Lean 4 proof (invariants by induction over histories and schedules; refutations by kernel-evaluated witnesses) "
                   "+ model/implementation correspondence check",
     ),
-    assumptions=["the two files are read as one snapshot (a write between reading the config and the rules file is not modelled)",
+    assumptions=["getter comparison: no getter is skipped; GetConfigMetadata is compared with the file locations (ID) blanked because the fresh "
+                 "load may come from another case's directory; getters of fields documented `reload: false` also show the new file's "
+                 "values after a reload in the code as it is (mainConfig is swapped wholesale), so they are compared like the others",
+                 "reloadable fields not varied by the generator (no generic valid value): url, memorysize, percentage, formatted or "
+                 "choice-less strings, non-string arrays, fields with requiredWith-style validations, deprecated fields/groups",
+"the two files are read as one snapshot (a write between reading the config and the rules file is not modelled)",
                  "lock; compare; assign; unlock of Reload is one atomic step (every other access to these fields holds f.mux)",
                  "listeners are registered before the triggers that notify them overlap (RegisterReloadCallback is not raced with Reload)",
                  "a content is identified with its MD5 hash"],
